@@ -396,13 +396,15 @@ func (s *clientSocket) onConnect(_ *parser.PacketHeader, decode parser.Decode) {
 		return
 	}
 
+	// The session is recovered only if the server answers with the private session ID we have presented.
+	// Set it on every CONNECT packet: a later, fresh session must not be reported as recovered.
+	recovered := false
 	if v.PID != "" {
 		pid, ok := s.pid()
-		if ok && pid == adapter.PrivateSessionID(v.PID) {
-			s.setRecovered(true)
-		}
+		recovered = ok && pid == adapter.PrivateSessionID(v.PID)
 		s.setPID(adapter.PrivateSessionID(v.PID))
 	}
+	s.setRecovered(recovered)
 
 	s.setID(SocketID(v.SID))
 
